@@ -709,6 +709,10 @@ void __redu_lcd_progress(
   lcd.print(text);
 }
 """
+# Placeholder emitted for LCDTick nodes; expanded once every animation of the
+# program (setup, loop body and helper functions) is known.
+_LCD_TICK_MARKER = "\0LCD_TICK:"
+
 SETUP_START = "void setup() {\n"
 SETUP_END = "}\n\n"
 LOOP_START = "void loop() {\n"
@@ -1554,13 +1558,7 @@ def _emit_block(
             info = _ensure_lcd(node.name)
             if info is None:
                 continue
-            for anim_var, anim_kind in lcd_animations.get(node.name, []):
-                tick_func = _LCD_ANIMATION_TICK_FUNCS.get(anim_kind)
-                if tick_func is None:
-                    continue
-                lines.append(
-                    f"{indent}{tick_func}({anim_var}, {info['object']}, {info['cols_var']});"
-                )
+            lines.append(f"{_LCD_TICK_MARKER}{node.name}|{indent}")
             continue
 
         if isinstance(node, VarDecl):
@@ -3054,13 +3052,6 @@ def emit(ast: Program) -> str:
         )
     )
 
-    if lcd_state:
-        for name, vars in lcd_animations.items():
-            for var, _ in vars:
-                line = f"__redu_lcd_animation_state {var};"
-                if line not in globals_:
-                    globals_.append(line)
-
     function_sections: List[str] = []
     function_prototypes: List[str] = []
     for fn in getattr(ast, "functions", []):
@@ -3088,8 +3079,8 @@ def emit(ast: Program) -> str:
             {name: dict(info) for name, info in dc_motor_state.items()},
             dict(lcd_decls),
             {name: dict(info) for name, info in lcd_state.items()},
-            {name: [(var, kind) for var, kind in values] for name, values in lcd_animations.items()},
-            dict(lcd_animation_counter),
+            lcd_animations,
+            lcd_animation_counter,
             indent="  ",
             in_setup=False,
             emitted_pin_modes=set(),
@@ -3100,6 +3091,35 @@ def emit(ast: Program) -> str:
             function_sections.append("\n".join(body_lines))
             function_sections.append("\n")
         function_sections.append("}\n\n")
+
+    if lcd_state:
+        for name, vars in lcd_animations.items():
+            for var, _ in vars:
+                line = f"__redu_lcd_animation_state {var};"
+                if line not in globals_:
+                    globals_.append(line)
+
+    def _expand_lcd_ticks(lines: List[str]) -> List[str]:
+        expanded: List[str] = []
+        for line in lines:
+            if not line.startswith(_LCD_TICK_MARKER):
+                expanded.append(line)
+                continue
+            lcd_name, tick_indent = line[len(_LCD_TICK_MARKER):].split("|", 1)
+            info = lcd_state.get(lcd_name)
+            if info is None:
+                continue
+            for anim_var, anim_kind in lcd_animations.get(lcd_name, []):
+                tick_func = _LCD_ANIMATION_TICK_FUNCS.get(anim_kind)
+                if tick_func is None:
+                    continue
+                expanded.append(
+                    f"{tick_indent}{tick_func}({anim_var}, {info['object']}, {info['cols_var']});"
+                )
+        return expanded
+
+    setup_lines = _expand_lcd_ticks(setup_lines)
+    loop_lines = _expand_lcd_ticks(loop_lines)
 
     ultrasonic_sections: List[str] = []
     for name in sorted(ultrasonic_measurements):
